@@ -16,6 +16,8 @@ func main() {
 	switch os.Args[1] {
 	case "vc":
 		os.Exit(cmdVC(os.Args[2:]))
+	case "check":
+		os.Exit(cmdCheck(os.Args[2:]))
 	case "list":
 		os.Exit(cmdList(os.Args[2:]))
 	default:
@@ -67,6 +69,13 @@ func cmdVC(args []string) int {
 	V.discharge(obls)
 	bad := 0
 	for _, o := range obls {
+		if o.ExpectSat {
+			if o.Res.Verdict == Unsat {
+				bad++
+				fmt.Printf("VACUOUS  %s\n", o.Name)
+			}
+			continue
+		}
 		if o.Res.Verdict != Unsat {
 			bad++
 		}
